@@ -40,6 +40,10 @@ EXTRAS = [
     (dict(), dict()),
     (dict(src_ns="nsA", src_node="node1", cluster="0a600002", svc_port=80), dict(dst_ns="nsB")),
     (dict(src_ns="", src_node="node1", dst_ns="fromsrc"), dict(dst_node="node2", src_ns="fromdst", prio=7)),
+    # IPv6 cluster address known to one side only / to both sides with different values (the later non-empty one wins)
+    (dict(src_ns="nsA", cluster6="fd000000000000000000000000000001", svc_port=8080), dict(dst_ns="nsB")),
+    (dict(cluster6="fd000000000000000000000000000001"), dict(cluster6="fd0000000000000000000000000000ff", cluster="0a600003")),
+    (dict(), dict(cluster6="00000000000000000000ffff00000000")),
 ]
 
 
